@@ -38,7 +38,7 @@ def slot(i):
 
 
 def own(r):
-    return [e for e in r.events if len(e.stack) == 1]
+    return [e for e in r.events if e.is_own()]
 
 
 def find(db, pred):
@@ -85,7 +85,7 @@ def check(ctx, config, rule):
                     continue
                 tgt = e.extra['target']
                 reach = g.reach([tgt])
-                if cp[0].block in reach or sl[0].block not in reach or not g.can_reach(e.block, cp[0].block):
+                if cp[0].top_block() in reach or sl[0].top_block() not in reach or not g.can_reach(e.top_block(), cp[0].top_block()):
                     continue
                 fs = [tuple(fold(x) if isinstance(x, tuple) else x for x in f) for f in e.extra['added']]
                 if not any(f in (('eq', TS, LEN), ('eq', LEN, TS)) for f in fs):
